@@ -25,6 +25,10 @@ def variants(props):
     for p in sorted(glob.glob(os.path.join(HERE, 'mutants', '*.patch'))):
         prop = os.path.basename(p).split('-')[0]
         out.append(('mutant', prop, p, [prop]))
+    # hand-written single-rule mutants, each confirmed by execution with the oracle demos under selftest/demos (see DESIGN.md §7)
+    for p in sorted(glob.glob(os.path.join(HERE, 'handmade', '*.patch'))):
+        prop = os.path.basename(p).split('-')[0]
+        out.append(('mutant', prop, p, [prop]))
     for d in sorted(glob.glob(os.path.join(VERIF, 'seeded', '*'))):
         meta = os.path.join(d, 'meta.json')
         patch = os.path.join(d, 'patch.diff')
